@@ -93,6 +93,12 @@ def _emptied(l):
     def of_len(t):
         return t[2][0] if t[0] == "call" and t[1] == G("len") and len(t[2]) == 1 else None
     if l[0] == "not":
+        o = ordered(l[1]) if l[1][0] == "cmp" else None
+        if o is not None:
+            # not (len(X) > 0), not (len(X) >= 1)
+            if (o[0] == ("const", 0) and o[2]) or (o[0] == ("const", 1) and not o[2]):
+                return of_len(o[1])
+            return None
         return of_len(l[1]) or l[1]
     if l[0] == "cmp" and l[1] == "==" and l[3] == ("const", 0):
         return of_len(l[2])
